@@ -477,6 +477,9 @@ func commonPrefix(a, b []*Term) int {
 // mergeStates merges b into a (a is consumed).  frames/regs are merged by the caller with the same guard.
 func (e *Engine) mergeStates(a, b *State, extra func(g *Term) bool) (*State, bool) {
 	n := commonPrefix(a.pc, b.pc)
+	if e.opt.MergeDebug && (len(a.pc)-n > 50 || len(b.pc)-n > 50) {
+		fmt.Printf("MERGE pc a=%d b=%d common=%d\n", len(a.pc), len(b.pc), n)
+	}
 	ga := e.tc.And(a.pc[n:]...)
 	gb := e.tc.And(b.pc[n:]...)
 	g := ga // guard selecting a's values
@@ -502,7 +505,7 @@ func (e *Engine) mergeStates(a, b *State, extra func(g *Term) bool) (*State, boo
 	if a.nowSeq != b.nowSeq || a.lastNow != b.lastNow {
 		return nil, false
 	}
-	if len(a.choice) != len(b.choice) || a.net != b.net {
+	if len(a.choice) != len(b.choice) || !netEqual(a.net, b.net) {
 		return nil, false
 	}
 	for i := range a.choice {
@@ -638,6 +641,9 @@ func sameValue(a, b Value) bool {
 		return ok && x == y
 	case *ChanObj:
 		y, ok := b.(*ChanObj)
+		return ok && x == y
+	case *SockObj:
+		y, ok := b.(*SockObj)
 		return ok && x == y
 	case ArrayV:
 		y, ok := b.(ArrayV)
